@@ -14,7 +14,7 @@ Here is a semantic property of the code base that users rely on:
 
 Your task: write a realistic change to the repository's source (the kind of slip a maintainer could make in a refactor or optimisation: an off-by-one, a dropped or inverted condition, a lost lock, a wrong constant, a missed update of a second site, an early return …) that BREAKS this property while the repository still compiles (`go build ./...` in {wt}) and every existing test of the packages you touch that passed before your change still passes (run `go test -count=1 ./pkg/<touched package>/...` before and after; some tests fail or do not even build on the unchanged tree — those do not count, but record that). Prefer a change that needs something specific to manifest — a particular interleaving, a crash or fault at a particular point, a multi-step sequence of operations, an unusual input, or two cooperating sites that each look fine alone — not one that ordinary use would expose at once. Do not touch test files in the change itself.
 
-Also write a demonstration: a Go test (new `_test.go` file) or small program inside {wt} that FAILS with your change and PASSES on the unchanged tree (check both, e.g. with `git stash`). If an anchored package's own test files do not build, put the demonstration in a new directory (e.g. {wt}/verifdemo/<name>/, package main or a _test package importing the repo packages by their module path github.com/gauss-project/aurorafs/...).
+Also write a demonstration: a Go test (new `_test.go` file) or small program inside {wt} that FAILS with your change and PASSES on the unchanged tree (check both; NEVER use `git stash` — the stash is shared with other people's worktrees of this repository; instead save your change with `git diff > {wt}/p.diff`, remove it with `git apply -R {wt}/p.diff`, restore it with `git apply {wt}/p.diff`). If an anchored package's own test files do not build, put the demonstration in a new directory (e.g. {wt}/verifdemo/<name>/, package main or a _test package importing the repo packages by their module path github.com/gauss-project/aurorafs/...).
 
 If you can, produce TWO different changes (different mechanisms). For each change k = 1, 2 leave in {wt}/MUTATION/k/ :
   patch.diff  — `git diff` of the source change only (no demonstration files in it), applicable with `git apply` at the repository root;
